@@ -11,7 +11,7 @@ LEVEL_TEXT = (
     "Static path and structure rules that are necessary conditions of reply ownership: close-before-escape on every "
     "ordinary-exception exit after sendall (R1), noreply <=> no read, coupled with the wire token at every call site "
     "(R2), each public method interpreted end to end consumes exactly the reply the protocol defines for its own commands (R3), no receive state survives a call (R4), only Client talks to "
-    "sockets (R5), a module-level send helper is exactly one send with failures passed on (R7). Parsing correctness under every segmentation is C03; misbehaving servers are not decided."
+    "sockets (R5), a module-level send helper is exactly one send with failures passed on (R7), the reply to a raw command is read once and ended at the caller's end token (R8). Parsing under segmentation is C03 (its rules R1/R4/R6 are re-run here); misbehaving servers are not decided."
 )
 TRUSTED = ["CPython ast", "pmcsa/paths.py interpreter", "pmcsa/wire.py fragment evaluator (R2b)", "summary: Client.close does not raise (decided by C06.R6)"]
 
